@@ -11,26 +11,33 @@ from ..coqeval import eval_shards, parse_eval_results
 from ..util import workdir
 from .. import split_cases as sc
 
-RULE = ("every case = (reads file, haplotag list file, option set) run through the real `whatshap split` CLI: "
-        "(a) all 192 option combinations {h1 | h2 | h1+h2 | -o x2 | -o x3 | -o x4} x untagged x add-untagged x "
-        "only-largest-block x discard-unknown-reads x histogram, each with fresh random data (FASTQ, FASTQ.gz, "
-        "unmapped and mapped BAM incl. records without sequence, paired/secondary/supplementary flags, tags; 0-10 "
-        "reads drawn from a pool of 1-6 names, so duplicate names are the rule; exact duplicate records; lists with "
-        "2-5 columns, with/without header, plain/gz, names absent from the reads, `none` lines, repeated names, "
-        "1-3 phase sets on 1-2 chromosomes); (b) exhaustive: all read sequences of length <= L over two names x all "
-        "lists assigning absent/none/H1/H2 to each name x discard x add-untagged x untagged-output (this stream calls "
-        "the CLI entry point whatshap.__main__.main(argv) many times per interpreter process, all others start one "
-        "`python -m whatshap split` process per case); (c) FASTQ reads "
-        "with empty sequence; (d) inputs the code rejects (unknown haplotype name, empty list file, "
-        "only-largest-block with a 2-column list, discard with no listed name), compared on the error class. "
+RULE = ("every case = (reads file, haplotag list file, option set, PYTHONHASHSEED in {0,1,7,42}) run through the real "
+        "`whatshap split` CLI: (a) all 192 option combinations {h1 | h2 | h1+h2 | -o x2 | -o x3 | -o x4} x untagged x "
+        "add-untagged x only-largest-block x discard-unknown-reads x histogram, each with fresh random data (FASTQ, "
+        "FASTQ.gz, unmapped and mapped BAM incl. records without sequence, paired/secondary/supplementary flags, tags; "
+        "0-10 reads drawn from a pool of 1-6 names (random names and names that share prefixes or look like "
+        "haplotype/phase-set/chromosome names), so duplicate names -- adjacent and separated -- are the rule; exact "
+        "duplicate records; FASTQ with/without final newline; lists with 2-5 columns, with/without header, plain/gz, "
+        "LF/CRLF, with/without final newline, names absent from the reads, `none` lines, repeated names (agreeing and "
+        "conflicting), 1-4 phase sets on 1-3 chromosomes, the same phase-set name on several chromosomes); with "
+        "--only-largest-block half of the lists are built so that on every chromosome >= 2 phase sets tie for the "
+        "largest (lines interleaved, so the first block in the file is independent of its name; sometimes a read twice "
+        "in a block so that line count and read count disagree); (b) exhaustive: all read sequences of length <= L over "
+        "two names x all lists assigning absent/none/H1/H2 to each name x discard x add-untagged x untagged-output "
+        "(this stream and a second random stream call the CLI entry point whatshap.__main__.main(argv) many times per "
+        "interpreter process, all others start one `python -m whatshap split` process per case); (c) FASTQ reads with "
+        "empty sequence; (d) FASTQ files under each extension the code lists (fastq, fastq.gz, fastq.gzip, fq, fq.gz, "
+        "fq.gzip); (e) inputs the code rejects (unknown haplotype name, empty list file, only-largest-block with a "
+        "2-column list, discard with no listed name), compared on the error class. "
         "A case is non-trivial if at least two reads are written and at least one listed, tagged name occurs among "
         "the reads; distinct = distinct (reads, list, options).")
 TRUSTED = [
     "modelled, not verified: parsing of the tab-separated list text into (name, haplotype, phaseset, chromosome) "
     "(line.strip().split('\\t'), header detection), pysam/htslib reading and writing of BAM and FASTQ containers, "
-    "xopen/gzip; the harness encodes names and whole records (FASTQ text / SAM text of the BAM record incl. all "
-    "tags) injectively as integers, so name equality and `written unmodified` are decided in Coq on the bytes",
-    "str(pysam.FastxRecord) (what split hands to the FASTQ writer) enters the model as data observed on the input file",
+    "xopen/gzip, file-format detection from content/extension; the harness encodes names and whole records (FASTQ "
+    "text / SAM text of the BAM record incl. all tags) injectively as integers, so name equality and `written "
+    "unmodified` are decided in Coq on the bytes",
+    "str(pysam.FastxRecord) enters the (legacy rule of the) model as data observed on the input file",
     "BAM header copy (template=) and the histogram header line are compared in python only",
 ]
 ASSUMPTIONS = [
@@ -38,11 +45,14 @@ ASSUMPTIONS = [
     "--only-largest-block is used, and names at least one read when --discard-unknown-reads is used (the code "
     "rejects everything else on purpose; those inputs are compared on the error class only)",
     "at least one of --output-h1/--output-h2/-o is given (argument validation is not part of the property)",
-    "where the list leaves the haplotype of a name open (same name on several lines with different entries; "
-    "several blocks of maximal size or line count vs. distinct-read count disagreeing under --only-largest-block) "
-    "every reading of the list is accepted by the specification check; the model pins the code's choice (L2)",
+    "`largest phased block (in terms of read count)` is read as the code documents it by behaviour: the phase set with "
+    "the most tagged list lines on the chromosome, the first one in the file among several of that size (L1 demands "
+    "exactly this block)",
+    "where a name stands on several list lines with different entries, every reading of those lines is accepted by the "
+    "specification check (L1); the model pins the code's choice -- the last tagged line -- at L2",
     "with --add-untagged the histogram column count-hN counts the reads of haplotype N and count-untagged the "
     "untagged reads (each once), as the column names say",
+    "FASTQ input is in the canonical 4-line form (pysam normalises a repeated name on the `+` line away)",
 ]
 
 HEADER = """From Coq Require Import ZArith List Bool Arith.
@@ -59,11 +69,12 @@ Definition judge (k : cfg * hlist * list read * outcome) : list (list nat) :=
   let '(c, l, r, o) := k in
   let ok := l1 c l r o in
   [ [b2n (valid_input c l); b2n ok] ++ clauses c l r o;
-    matching_rules c l r o;
+    matching_rules c l r o;      (* [0] iff L2 holds: the result is exactly the repaired model's *)
     if ok then [] else blamed_rules c l r ].
 """
 
 INFRA = re.compile(r"^(ModuleNotFoundError|ImportError): .*(whatshap|\.so\b|ELF)", re.M)
+EXT_SIG = "split:fastq-extension-rejected"
 SIG = {1: "split:early-exit-duplicate-names", 2: "split:list-duplicate-name-assert",
        4: "split:histogram-duplicate-rows", 8: "split:fastq-empty-read-rewritten"}
 
@@ -149,7 +160,9 @@ def signatures(case, ob, v):
                     s = "split:fastq-record-rewritten"
                 sigs.append(s)
     if not sigs:
-        if ob["rc"] != 0:
+        if ob["rc"] != 0 and case.get("ext") and "Undetected file format" in ob.get("stderr", ""):
+            sigs.append(EXT_SIG)
+        elif ob["rc"] != 0:
             sigs.append("split:crash:" + ob["error"])
         else:
             if not v["routing"]:
@@ -269,16 +282,71 @@ def process(ctx, results, label, count=True):
             if set(nm) - set(ln):
                 ctx.tally("reads.names_absent_from_list")
             ctx.tally("reads.total", len(nm))
+            ctx.tally("reads.count_" + (str(len(nm)) if len(nm) <= 2 else "3+"))
+            if any(a == b for a, b in zip(nm, nm[1:])):
+                ctx.tally("reads.same_name_adjacent")
+            if any(nm[i] in nm[i + 2:] and nm[i + 1] != nm[i] for i in range(len(nm) - 2)):
+                ctx.tally("reads.same_name_not_adjacent")
+            if o["discard"] and any(a == b and a not in ln for a, b in zip(nm, nm[1:])):
+                ctx.tally("reads.unlisted_adjacent_run_with_discard")
+            pl = [x[2] for x in ob["inputs"]]
+            if len(set(pl)) < len(pl):
+                ctx.tally("reads.identical_records")
+            if set(nm) & set(sc.SPECIAL_NAMES):
+                ctx.tally("reads.special_names")
+            if case.get("ext"):
+                ctx.tally("reads.ext." + case["ext"])
+            if case["fmt"] != "bam" and not case.get("final_newline", True):
+                ctx.tally("reads.fastq_no_final_newline")
+            ctx.tally("hashseed." + case.get("hashseed", "0"))
+            ctx.tally("list.lines_" + (str(len(ln)) if len(ln) <= 2 else "3+"))
+            if case["list"].get("eol") == "\r\n":
+                ctx.tally("list.crlf")
+            if not case["list"].get("final_newline", True):
+                ctx.tally("list.no_final_newline")
+            if case["list"]["gz"]:
+                ctx.tally("list.gz")
+            for _, h, _, _ in case["list"]["lines"]:
+                ctx.tally("list.hap." + h if h in ("none", "H1", "H2", "H3", "H4") else "list.hap.other")
+            byname = {}
+            for n_, h, _, _ in case["list"]["lines"]:
+                byname.setdefault(n_, []).append(h)
+            if any(len(set(v)) > 1 for v in byname.values()):
+                ctx.tally("list.duplicate_names_conflicting")
+            if any(len(v) > 1 and len(set(v)) == 1 for v in byname.values()):
+                ctx.tally("list.duplicate_names_agreeing")
+            if o["largest"] and case["list"]["ncols"] >= 4:
+                feats = sc.largest_block_features(case["list"]["lines"])
+                for f in feats:
+                    ctx.tally("largest." + f)
+                if "tie_at_top" in feats and o["discard"]:
+                    ctx.tally("largest.tie_at_top_with_discard")
+                if "tie_at_top" in feats and set(nm) & {n_ for n_, h, _, _ in case["list"]["lines"] if h != "none"}:
+                    ctx.tally("largest.tie_at_top_and_tagged_name_among_reads")
+            if o["add"] and o["mode"] == "h" and not (o["h1"] and o["h2"]):
+                ctx.tally("opt.add_with_one_h_output_missing")
+            if o["discard"] and o["largest"]:
+                ctx.tally("opt.discard_and_largest")
+            if o["gzout"] and case["fmt"] != "bam":
+                ctx.tally("outputs.gz")
+            if ob["rc"] == 0 and "hist" in ob:
+                ctx.tally("hist.rows_" + (str(len(ob["hist"])) if len(ob["hist"]) <= 1 else "2+"))
+                if any(sum(1 for x in row[1:] if x) >= 2 for row in ob["hist"]):
+                    ctx.tally("hist.length_shared_by_classes")
             if ob["rc"] != 0:
                 ctx.tally("impl.error." + ob["error"])
         for s in signatures(case, ob, v):
             by_sig.setdefault(s, []).append((case, ob, v))
         if v is None:
             l2_bad.append((case, ob, "unknown error class " + ob["error"]))
-        elif not v["matching"]:
-            l2_bad.append((case, ob, "no rule set of the model reproduces the implementation"))
-        else:
+        elif v["matching"] != [0]:
+            if not (ob["rc"] != 0 and EXT_SIG in signatures(case, ob, v)):
+                l2_bad.append((case, ob, "implementation result differs from the model (Split.run repaired)" +
+                               (f"; it matches the model with the legacy rule set(s) {v['matching']} "
+                                "(1=early_exit 2=dup_assert 4=hist_dup_rows 8=fastq_via_str)" if v["matching"] else "")))
             matchsets.append(set(v["matching"]))
+        else:
+            matchsets.append({0})
         if ob["rc"] == 0 and ob.get("header_ok") is False:
             l2_bad.append((case, ob, "BAM header of an output differs from the input header"))
         if ob["rc"] == 0 and ob.get("hist_head_ok") is False:
@@ -319,6 +387,11 @@ def run(ctx):
     # repeated names in the list (what haplotag writes for paired-end reads), all options
     for _ in range(ctx.n(30, 400)):
         cases.append(sc.gen_case(rng, dup_list_names=True))
+    # FASTQ reads files under every extension split lists as FASTQ (fastq, fastq.gz, fastq.gzip, fq, fq.gz, fq.gzip)
+    for _ in range(ctx.n(2, 20)):
+        for ext, fmt in (("fq", "fastq"), ("fq.gz", "fastq.gz"), ("fastq.gzip", "fastq.gz"), ("fq.gzip", "fastq.gz"),
+                         ("fastq", "fastq"), ("fastq.gz", "fastq.gz")):
+            cases.append(sc.gen_case(rng, fmt=fmt, ext=ext))
     # (d) rejected inputs
     for _ in range(ctx.n(6, 60)):
         for inv in ("badhap", "emptyfile", "largest2col", "noknown"):
@@ -350,14 +423,11 @@ def run(ctx):
     l2_bad += l2_bad2
     matchsets += matchsets2
 
-    common = set(range(16))
-    for m in matchsets:
-        common &= m
-    ctx.extra["model_rule_sets_consistent_with_all_cases"] = sorted(common)
-    ctx.extra["rule_set_bits"] = "1=early_exit 2=dup_assert 4=hist_dup_rows 8=fastq_via_str; 15=current code, 0=repaired"
-    ctx.log(f"rule sets of the model consistent with every case: {sorted(common)}")
-    if matchsets and not common:
-        l2_bad.append((None, None, "no single rule set of the model explains all cases"))
+    ctx.extra["cases_equal_to_repaired_model"] = sum(1 for m in matchsets if m == {0})
+    ctx.extra["cases_not_equal_to_repaired_model"] = sum(1 for m in matchsets if m != {0})
+    ctx.extra["rule_set_bits"] = "legacy rules: 1=early_exit 2=dup_assert 4=hist_dup_rows 8=fastq_via_str; L2 demands 0 (repaired)"
+    ctx.log(f"L2: {ctx.extra['cases_equal_to_repaired_model']} cases equal to the repaired model, "
+            f"{ctx.extra['cases_not_equal_to_repaired_model']} not")
     if l2_bad:
         ctx.disagreements_checked += len(l2_bad)
         ctx.l2_disagreement("Split.run = whatshap split outputs (L2)",
